@@ -120,8 +120,8 @@ class assert_less(RuntimeAssertionFeedback):
         super().__init__(SandboxedValue(left), SandboxedValue(right), **kwargs)
 
     def condition(self, left, right):
-        """ Tests if the left is greater or equal """
-        return left.value >= right.value
+        """ Tests if the left is not less than the right """
+        return not (left.value < right.value)
 
 
 class assert_less_equal(RuntimeAssertionFeedback):
@@ -136,8 +136,8 @@ class assert_less_equal(RuntimeAssertionFeedback):
         super().__init__(SandboxedValue(left), SandboxedValue(right), **kwargs)
 
     def condition(self, left, right):
-        """ Tests if the left is greater than the right """
-        return left.value > right.value
+        """ Tests if the left is not less than or equal to the right """
+        return not (left.value <= right.value)
 
 
 class assert_greater(RuntimeAssertionFeedback):
@@ -152,8 +152,8 @@ class assert_greater(RuntimeAssertionFeedback):
         super().__init__(SandboxedValue(left), SandboxedValue(right), **kwargs)
 
     def condition(self, left, right):
-        """ Tests if the left is less than or equal to the right """
-        return left.value <= right.value
+        """ Tests if the left is not greater than the right """
+        return not (left.value > right.value)
 
 
 class assert_greater_equal(RuntimeAssertionFeedback):
@@ -168,8 +168,8 @@ class assert_greater_equal(RuntimeAssertionFeedback):
         super().__init__(SandboxedValue(left), SandboxedValue(right), **kwargs)
 
     def condition(self, left, right):
-        """ Tests if the left is less than the right """
-        return left.value < right.value
+        """ Tests if the left is not greater than or equal to the right """
+        return not (left.value >= right.value)
 
 
 class assert_in(RuntimeAssertionFeedback):
